@@ -325,6 +325,11 @@ pub fn explore(w: &World, member: &str, opts: &ExploreOpts) -> Graph {
             g.log_records += out.log_records;
             g.log_templates.extend(out.log_templates.iter().copied());
             let mut rec = snapshot_state(&out.client, w, &pool_ids, &welcome_ids, depth + 1, Some((si, a)), opts.keep_key_json);
+            if std::env::var("VERIF_DEBUG2").is_ok() {
+                if let Some(go) = &rec.g {
+                    eprintln!("explore {member} from {si} via {} -> {} ptr={} msgs={}", a.label(w), out.result, go.record["last_message_id"], go.messages.len());
+                }
+            }
             let has_pending = rec.g.as_ref().map(|g| g.pending_commit).unwrap_or(false);
             rec.auto_pending = has_pending && (g.states[si].auto_pending || out.result == "Proposal");
             if rec.auto_pending {
